@@ -132,6 +132,12 @@ fn optif<T>(tag: i32, c: bool, v: T) -> Option<T> {
     if c { Some(v) } else { None }
 }
 
+/// a host METHOD: `recv.selm(tag, y)` records receiver and argument and returns the receiver
+fn sel<T: Enc>(recv: T, tag: i32, y: T) -> T {
+    log(json!(["sel", tag, recv.enc(), y.enc()]));
+    recv
+}
+
 fn emit<T: Enc>(tag: i32, v: T) -> T {
     log(json!(["emit", tag, v.enc()]));
     v
@@ -194,6 +200,19 @@ fn runtime() -> Runtime<NoCtx> {
         fn optif_bool(tag: i32, c: bool, v: bool) -> Option<bool> { optif(tag, c, v) }
         fn optif_char(tag: i32, c: bool, v: char) -> Option<char> { optif(tag, c, v) }
         fn optif_str(tag: i32, c: bool, v: RotoString) -> Option<RotoString> { optif(tag, c, v) }
+        impl i8 { fn selm(self, tag: i32, y: i8) -> i8 { sel(self, tag, y) } }
+        impl u8 { fn selm(self, tag: i32, y: u8) -> u8 { sel(self, tag, y) } }
+        impl i16 { fn selm(self, tag: i32, y: i16) -> i16 { sel(self, tag, y) } }
+        impl u16 { fn selm(self, tag: i32, y: u16) -> u16 { sel(self, tag, y) } }
+        impl i32 { fn selm(self, tag: i32, y: i32) -> i32 { sel(self, tag, y) } }
+        impl u32 { fn selm(self, tag: i32, y: u32) -> u32 { sel(self, tag, y) } }
+        impl i64 { fn selm(self, tag: i32, y: i64) -> i64 { sel(self, tag, y) } }
+        impl u64 { fn selm(self, tag: i32, y: u64) -> u64 { sel(self, tag, y) } }
+        impl f32 { fn selm(self, tag: i32, y: f32) -> f32 { sel(self, tag, y) } }
+        impl f64 { fn selm(self, tag: i32, y: f64) -> f64 { sel(self, tag, y) } }
+        impl bool { fn selm(self, tag: i32, y: bool) -> bool { sel(self, tag, y) } }
+        impl char { fn selm(self, tag: i32, y: char) -> char { sel(self, tag, y) } }
+        impl RotoString { fn selm(self, tag: i32, y: RotoString) -> RotoString { sel(self, tag, y) } }
         fn tick(tag: i32) { log(json!(["tick", tag])); }
         fn mk(tag: i32) -> Val<Tr24> {
             log(json!(["mk", tag]));
